@@ -106,3 +106,17 @@ def contract(target, **kw) -> Contract:
     c = Contract(target=target, **kw)
     REGISTRY[c.name or target] = c
     return c
+
+
+STATIC: dict = {}
+
+
+def static_check(name, props):
+    """Obligations decided by evaluating a finite table read from the repo AST (class table, literal sets):
+    fn() -> list of dict(id, ok: bool, detail).  Complete over a finite domain, back end `static-evaluation`."""
+
+    def deco(fn):
+        STATIC[name] = dict(name=name, props=list(props), fn=fn)
+        return fn
+
+    return deco
